@@ -266,6 +266,7 @@ STRGROUP(define-fun godiv ((a Int) (b Int)) Int (ite (>= a 0) (ite (> b 0) (div 
 (declare-fun shl (Int Int) Int)
 (declare-fun shr (Int Int) Int)
 (define-fun pow2 ((k Int)) Int POW2TABLE)
+(declare-fun dyntype (Addr) Int)
 (declare-fun implements (Int Int) Bool)
 (declare-fun unbox (Int Int) Int)
 (declare-fun unboxa (Int Int) Addr)
@@ -339,7 +340,9 @@ func runSolver(ctx context.Context, solver, script string, perCheckMs int, hardS
 	args := append([]string{}, solverCmds[solver]...)
 	switch solver {
 	case "z3", "z3-new":
-		args = append(args, fmt.Sprintf("-t:%d", perCheckMs))
+		// proofs rely on E-matching with explicit patterns; model-based instantiation only burns time on the
+		// failing/unknown cases (candidate models come from the relaxed query instead)
+		args = append(args, fmt.Sprintf("-t:%d", perCheckMs), "smt.mbqi=false")
 	case "cvc5":
 		args = append(args, fmt.Sprintf("--tlimit-per=%d", perCheckMs))
 	}
